@@ -75,9 +75,19 @@ def prep_schema(detector, medium_index, illum_wavelen, illum_polarization):
         else:
             #  need to interpret illumination from detector.illum_wavelen
             if not isinstance(illum_wavelen, xr.DataArray):
+                labels = illum_wavelen
+                if illumination in detector.dims:
+                    #  the channels of the detector already have labels
+                    labels = detector[illumination].values
+                    if len(labels) != len(illum_wavelen):
+                        msg = ("{} wavelengths given for a detector with {} "
+                               "illumination channels {}").format(
+                                   len(illum_wavelen), len(labels),
+                                   labels.tolist())
+                        raise ValueError(msg)
                 illum_wavelen = xr.DataArray(
                     illum_wavelen, dims=illumination,
-                    coords={illumination: illum_wavelen})
+                    coords={illumination: labels})
             illum_polarization = xr.broadcast(
                 illum_polarization, illum_wavelen, exclude=[vector])[0]
 
